@@ -208,8 +208,8 @@ func init() {
 			}
 			return p
 		},
-		Oracle:      c13Oracle,
-		Components:  stdComponents,
+		Oracle:     c13Oracle,
+		Components: stdComponents,
 		Assumptions: []string{"requests that validation refuses before the pass-through decision (unknown codec, malformed timeout, ...) are answered by the transcoder itself and are not counted",
 			"the order of values under one header name is content; the order of names is not"},
 	})
